@@ -25,6 +25,19 @@ CLAIMED = {
              'String-level lexing of the serialised items is checked by the extracted lexer on real output, not yet proved.',
         technique='Coq proof (induction over token trees; reflective side conditions on regenerated escape data) + extracted-model correspondence',
         design='5/C08'),
+    'C04': dict(
+        text='QUOTE: theorem over ALL lists of tab-free lines, all line lengths, all fuels, both markers and every token configuration that tries Quote before '
+             'Paragraph: the block tokenizer of the parser model returns exactly one quote holding the tokenization of the lines (setext headings off, as '
+             'Quote.read does), and the whole-document form adds the link definitions and the line numbers; proved through a first-character analysis of '
+             'the regex engine (sound for every pattern) evaluated by the kernel on the patterns regenerated from /repo. The statement at full strength is '
+             'refuted in the model (witness Foo / ---): known finding. LIST: kernel-checked on every text over a 9-symbol alphabet up to length 4 for four '
+             'marker/padding pairs; beyond that decided on the implementation by the oracle. Model tied to the code by X-doc on the texts and on every embedding.',
+        note='PARTIAL for the list law (bounded kernel sweep + oracle). Trusted: Coq kernel incl. vm_compute, extraction, translators gen_regex/gen_config/gen_tables, '
+             'the hand-written parser model (correspondence-checked). Texts with tabs, with a blank last line, or (list law) with lines of spaces only are outside the quantifier. '
+             'One genuine defect repaired (fix: 3e6741d).',
+        technique='Coq proof (induction over lines; verified regex first-character analysis with reflective side conditions on regenerated patterns; bounded kernel sweep) '
+                  '+ extracted-model correspondence + law oracle on the implementation',
+        design='5/C04'),
     'C17': dict(
         text='Theorems over ALL token trees about a Gallina model of LaTeXRenderer: template braces and \\begin/\\end pairs properly nested, every text '
              'item a sequence of ordinary characters and escape sequences (declarative predicate Esc), every \\href/\\url argument safe, \\verb delimiter '
